@@ -12,6 +12,35 @@ documented variable bindings, to a fixpoint, and always terminate.
    package clause and struct name with the expectation.  Only that comparison produces verdicts.
 3. The ResolveIter/ResolveLoop/Resolved hook events of every call are validated by TLC against
    spec/TemplateResolveTrace.tla at contract level (verdict) and at code-shaped level (drift note).
+
+Coverage table (clause / quantifier dimension of C11 -> where it is explored -> what is a single point or absent)
+  five templated parameters        all five in every case; Lag family: each one in turn still changing when the others are
+                                   stable; the five written at configs-entry / interface / package / root level (solo runs)
+  documented variables             every variable in the B family x 352 layouts; absent: none
+    ConfigDir/InterfaceDirRelative search (.yml/.yaml, config in cwd or any ancestor, differently named decoy further up,
+                                   both names in one dir), --config / MOCKERY_CONFIG rel+abs, flag+env together; config in
+                                   a sibling dir or outside the module.  absent: cwd reached through a symlink, --config
+                                   naming a directory, `config:` key written inside the file
+    InterfaceDir/InterfaceFile     four source-file kinds (//line abs/rel before/after the package clause, blank + non-ASCII
+                                   in the name), never the first file of the package.  absent: symlinked package dirs,
+                                   interfaces of recursively discovered sub-packages, cgo / generated-file variants
+    InterfaceName / Mock           exported, unexported, non-ASCII exported, underscore-initial, underscore + capital, caseless
+                                   (CJK) first letter.  single point: one name per class
+    SrcPackageName/SrcPackagePath  package name different from the last path element in all four packages.
+                                   absent: main, /vN, _test packages
+    StructName                     unrendered-text binding: default, literal, self-growing, period-2 cycle, own fixpoint,
+                                   1/2/4/8/18/19/22 escape levels; referenced from filename/pkgname/dir/schema
+    Template                       built-in name and file:// URL.  absent: http(s):// template URL in C11 (C12 has it)
+  function library                 lower upper firstLower firstUpper snakecase kebabcase trimSuffix trimPrefix replace
+                                   replaceAll base dir, operands separating each from its nearest neighbour.
+                                   absent: the rest of the library (C16 owns semantics)
+  spelling of an action            nine spellings of one token (blanks, trim markers, call form, with, if, $var, comment,
+                                   parentheses), chosen per case.  absent: range, define/template, else-if chains
+  fixpoint / termination           0..23 changing passes, both sides of the code's cap; growth, cycle; invalid syntax at once
+                                   and after one pass; every Go-map order of the five (TLC, Interleave); wall-clock bound.
+                                   absent: values whose RESULT is whitespace-only or contains `..` beyond shape B8,
+                                   exec-time errors other than a missing field (unspecified class)
+  several configs of an interface  up to 60 entries per run sharing package/root values.  single point: one run = one process
 """
 import collections
 import json
@@ -71,7 +100,36 @@ def quote_print(t, level):
     return '{{"' + t.replace('"', ph) + '" | replaceAll "' + ph + '" (printf "%c" 34)}}'
 
 
-def tok_text(ts, qstyle="simple"):
+SPELLINGS = ["compact", "spaced", "trim", "call", "with", "if", "var", "comment", "paren"]
+
+
+def spell(v, pipe, style):
+    """one var / pipe token in one of the spellings of TemplateResolve!Spellings (all render alike)"""
+    x = "." + v
+    if pipe is None:
+        return {"compact": "{{%s}}", "spaced": "{{ %s }}", "trim": "{{- %s -}}", "call": "{{print %s}}",
+                "with": "{{with %s}}{{.}}{{end}}", "if": "{{if %s}}{{%s}}{{else}}{{end}}" , "var": "{{$v := %s}}{{$v}}",
+                "comment": "{{/* a comment */}}{{%s}}", "paren": "{{(%s)}}"}[style].replace("%s", x)
+    single = "|" not in pipe
+    if style == "call" and single:
+        return "{{" + pipe + " " + x + "}}"                       # f "arg" .X
+    if style == "paren" and single:
+        return "{{(" + pipe + " " + x + ")}}"
+    if style in ("spaced", "call", "paren"):
+        return "{{ " + x + " | " + pipe + " }}"
+    if style == "trim":
+        return "{{- " + x + " | " + pipe + " -}}"
+    if style in ("with", "if"):
+        return "{{with " + x + "}}{{. | " + pipe + "}}{{end}}" if style == "with" else \
+            "{{if true}}{{" + x + " | " + pipe + "}}{{end}}"
+    if style == "var":
+        return "{{$v := " + x + " | " + pipe + "}}{{$v}}"
+    if style == "comment":
+        return "{{" + x + " | " + pipe + "}}{{/* a comment */}}"
+    return "{{" + x + " | " + pipe + "}}"
+
+
+def tok_text(ts, qstyle="simple", style="compact"):
     out = []
     for t in ts:
         k = t["k"]
@@ -80,15 +138,21 @@ def tok_text(ts, qstyle="simple"):
                 raise MachineryError("literal with template delimiters in a case: " + t["s"])
             out.append(t["s"])
         elif k == "var":
-            out.append("{{." + t["v"] + "}}")
+            out.append(spell(t["v"], None, style))
         elif k == "pipe":
-            out.append("{{." + t["v"] + " | " + PIPE_TEXT[t["f"]] + "}}")
+            out.append(spell(t["v"], PIPE_TEXT[t["f"]], style))
         elif k == "q":
-            inner = tok_text(t["body"], qstyle)
+            inner = tok_text(t["body"], qstyle, style)
             out.append(quote_print(inner, qdepth(t["body"])) if qstyle == "print" else quote_simple(inner))
+        elif k == "bad":
+            out.append("{{.Mock")            # an action that is never closed
         else:
             raise MachineryError("cannot concretise token " + json.dumps(t))
     return "".join(out)
+
+
+def has_bad(ts):
+    return any(t["k"] == "bad" or t["k"] == "q" and has_bad(t["body"]) for t in ts)
 
 
 def qdepth(ts):
@@ -150,13 +214,13 @@ def check_tables(cases):
 
 
 # ---------------------------------------------------------------------------------------------- worlds
-IFACES = ["FooBar", "barBaz", "Ωmega", "_hid"]
+IFACES = ["FooBar", "barBaz", "Ωmega", "_hid", "_Shouty", "設定"]
 
 
 def deomega(x):
     """%O% / %o% in everything TLC exported -> the Greek letters (TLC's state queue is not safe for non-ASCII)"""
     if isinstance(x, str):
-        return x.replace("%O%", "Ω").replace("%o%", "ω")
+        return x.replace("%O%", "Ω").replace("%o%", "ω").replace("%C%", "設定")
     if isinstance(x, list):
         return [deomega(y) for y in x]
     if isinstance(x, dict):
@@ -188,6 +252,7 @@ class World:
         files = {"go.mod": "module example.com/r\n\ngo 1.23\n", "w/go.mod": vlib.GO_SUM_MOD, "probe.templ": PROBE}
         for d, pn in PKGS.items():
             fn, before, after = SOURCES[d]
+            files[d + "/a0.go"] = "package " + pn + "\n\ntype A0Unrelated interface{ Zzz() }\n"     # Layout!FirstFile
             files[d + "/" + fn] = before + "package " + pn + "\n\n" + after + "".join(
                 f"type {n} interface{{ Do(x int) string }}\n" for n in IFACES)
         for c in cases:
@@ -206,7 +271,7 @@ class World:
             ent = {}
             for p in PARAMS:
                 deep = qdepth(c["vals"][p]) > 5      # 3^depth delimiters with the simple spelling
-                ent[CFGKEY[p]] = self.sub(tok_text(c["vals"][p], "print" if deep else qstyle))
+                ent[CFGKEY[p]] = self.sub(tok_text(c["vals"][p], "print" if deep else qstyle, c.get("style", "compact")))
             if tmpl != "testify" and c["expect"]["kind"] not in ("ok", "ok_or_error"):
                 # no expected schema location to put a schema at: nothing but the resolution itself may fail
                 ent["require-template-schema-exists"] = False
@@ -368,7 +433,7 @@ class Judge:
     def sig(self, c, kind, **kw):
         m = c["meta"]
         s = {"kind": kind, "sid": m["sid"][:2] if m["sid"][0] in "BTLD" else "res", "mode": m["mode"],
-             "layout_class": layout_class(m), "predicted_deviation": d14_of(c), "template": "testify" if m["tmpl"] == "testify" else "custom"}
+             "layout_class": layout_class(m), "predicted_deviation": d14_of(c), "template": "testify" if m["tmpl"] == "testify" else "custom", "spelling": c.get("style", "compact")}
         s.update(kw)
         return s
 
@@ -451,7 +516,7 @@ class Judge:
             if evs:
                 ended = evs[-1]["ev"] in ("Resolved", "ResolveLoop")
                 tev = list(evs) + ([] if ended else [{"ev": "abort"}])
-                if e["kind"] != "unspecified":
+                if e["kind"] != "unspecified" and not any(has_bad(c["vals"][p]) for p in PARAMS):
                     cc = {"id": c["id"], "vals": c["vals"], "impl": {k: w.sub(v) for k, v in c["impl"].items()}}
                     self.trace_impl.append((c, [{"ev": "begin", "c": cc}] + tev))
                 if not d14_of(c):
@@ -540,6 +605,14 @@ def _run(ctx):
         raise MachineryError("TLC failed on TemplateResolve:\n" + r.tail())
     lap("tlc")
     cases = deomega(r.prints("CASE"))
+    spellings = r.prints("SPELLINGS")
+    if not spellings or sorted(spellings[0]) != sorted(SPELLINGS):
+        raise MachineryError("TemplateResolve!Spellings and the spellings of the harness differ")
+    for c in cases:
+        # the spelling of the actions is a free choice (it never changes the expectation), except where the final value
+        # still shows an action literally ({{.StructName}} being its own fixpoint)
+        literal = any("{{" in v for v in c["expect"]["vals"].values())
+        c["style"] = "compact" if literal else ctx.rng.choice(SPELLINGS)
     replay_only = None
     if getattr(ctx, "replay", None):
         try:
@@ -568,6 +641,10 @@ def _run(ctx):
     if not any(c["expect"]["kind"] == "ok_or_error" and c["predict"]["kind"] == "error" for c in cases) or \
             not any(c["expect"]["kind"] == "ok_or_error" and c["predict"]["n"] == 19 for c in cases):
         raise MachineryError("vacuous: no slowly converging value on either side of the code's iteration cap")
+    if not any(has_bad(c["vals"]["structname"]) and qdepth(c["vals"]["structname"]) for c in cases):
+        raise MachineryError("vacuous: no value with invalid template syntax that appears only after a pass")
+    if not any(c["meta"]["iface"] == "設定" for c in cases) or not any(c["meta"]["iface"] == "_Shouty" for c in cases):
+        raise MachineryError("vacuous: no interface whose first letter is caseless / an underscore before a capital")
     if not any(c["meta"]["decoy"] for c in cases):
         raise MachineryError("vacuous: no layout with a decoy config file")
     if not any(not c["meta"]["exported"] and "Mock" in c["uses"] for c in cases):
